@@ -309,6 +309,22 @@ def main(pid, tier, seed):
                               'clauses %s; %s' % (failing, core.short({k: m[k] for k in m if k not in ('model',)}, 300)))
     verdict.matcher('C10-F8-all-level-10', lambda w: w.get('boundary') in ('ln10', 'ip10') and w.get('failing') == ['C10_generator_raised'])
     verdict.matcher('C18-F7-keyspace-undercount', lambda w: w.get('failing') and set(w['failing']) <= {'C18_keyspace_is_level_size', 'C18_generator_emits_that_many', 'C18_saved_probability'} and False)
+    def corrupt(t):
+        if t['kind'] == 'level' and len(t['ev']) >= 2:
+            t['ev'] = t['ev'][:-1]                   # one string of the level missing
+            return t
+        if t['kind'] == 'keyspace' and t['rows']:
+            t['rows'][0][1] += 1                     # saved keyspace off by one
+            return t
+        if t['kind'] == 'agree' and t['cands']:
+            k = next((i for i, c in enumerate(t['cands']) if c[2] >= 0), None)
+            if k is None:
+                return None
+            t['cands'][k][2] += 1                    # scorer level off by one
+            return t
+        return None
+    accepted = [t for t in traces if verdicts[t['tid']][0] == 'ACCEPT']
+    selftest = core.binding_selftest('TrOmen.tla', accepted, corrupt)
     # ---- I-layer conformance (drift only): every next_guess() of the real generator against OmenEnum.tla ----
     conf = None
     if step_traces:
@@ -330,6 +346,7 @@ def main(pid, tier, seed):
            'models_in_checked_space': n_models_total,
            'trace_validation': st, 'exhaustive': False, 'known_findings_reproduced': n_known,
            'impl_conformance': conf,
+           'binding_selftest': selftest,
            'violation_histogram': verdict.histogram()}
     core.write_evidence(pid, tier, seed, 'model_checking' if pid != 'C11' else 'exploration', cov, time.time() - t0, violations=n_viol,
                         assumptions=['TLC', 'the smoothing logarithm that assigns levels is not modelled: level tables are data',
